@@ -64,11 +64,11 @@ def _divisor(rng, slack_bits):
     return yn >> 1, yn1, yn0
 
 
-def corner_q1(rng):
+def corner_q1(rng, slack_bits=50, q1_bits=56):
     """(D_lo, D_hi, y): every 256-bit D in [D_lo, D_hi) drives the first digit's remainder to exactly 2^64."""
-    y, yn1, yn0 = _divisor(rng, 50)
-    rhat0 = B - yn1                         # < 2^50
-    q1 = rng.randrange(4 * rhat0 + 4, 1 << 56)
+    y, yn1, yn0 = _divisor(rng, slack_bits)
+    rhat0 = B - yn1                         # < 2^slack_bits
+    q1 = rng.randrange(4 * rhat0 + 4, 1 << q1_bits)
     xn32 = q1 * yn1 + rhat0
     # loop condition q1*yn0 > rhat0*B + xn1 holds for every xn1 < 2^63 (q1 >= 4*rhat0+4, yn0 >= 2^63)
     lo = (xn32 << 128) >> 1
@@ -101,10 +101,10 @@ def product_in(rng, lo, hi, max_factor=M):
     return None
 
 
-def shifted_in(lo, hi):
+def shifted_in(lo, hi, max_p=38):
     """(x, p) with lo <= x * 10^p < hi and x <= M, largest usable p first; or None."""
     width = hi - lo
-    for p in range(38, -1, -1):
+    for p in range(max_p, -1, -1):
         t = 10 ** p
         if t > width:
             continue
@@ -138,3 +138,47 @@ def corner_requests(rng, n):
                     out.append("k_shdm %d %d %d" % (rng.choice((1, -1)) * x, p, y))
                     stats[which] += 1
     return out, stats
+
+
+def api_corner_requests(rng, n, fD):
+    """Decimal divisions (x @ p) / (y @ q) whose scaled dividend x * 10^(18+q-p) hits a 2^64 corner.
+    fD formats a Decimal operand. Returns request lines `div <form> <lhs> <rhs>`."""
+    out = []
+    for _ in range(n):
+        for which, ctor in (("q1", lambda r: corner_q1(r, 30, 42)), ("q0", corner_q0)):
+            lo, hi, y = ctor(rng)
+            sh = shifted_in(lo, hi, 36)
+            if not sh:
+                continue
+            x, k = sh
+            f = trace(x * 10 ** k, y)
+            if not (f and f[which + "_rhat_eq_b"]):
+                continue
+            # 18 + q - p == k
+            qs = [q for q in range(19) if 0 <= 18 + q - k <= 18]
+            if not qs:
+                continue
+            q = rng.choice(qs)
+            p = 18 + q - k
+            sx, sy = rng.choice((1, -1)), rng.choice((1, -1))
+            out.append("%s %s %s %s" % (rng.choice(("div", "cdiv")), rng.choice(("vv", "*", "rr")), fD(sx * x, p), fD(sy * y, q)))
+    return out
+
+
+def hi_eq_divisor_requests(rng, n, fD):
+    """Divisions whose scaled dividend's upper 128-bit word equals the divisor (+-1): true quotient ~ 2^128."""
+    out = []
+    for _ in range(n):
+        k = rng.randrange(20, 37)
+        y = rng.randrange(1 << 64, min(10 ** k // 2, M) + 1)
+        for dy in (-1, 0, 1):
+            x = -((-(y + dy) << 128) // 10 ** k)
+            if not 0 < x <= M:
+                continue
+            qs = [q for q in range(19) if 0 <= 18 + q - k <= 18]
+            if not qs:
+                continue
+            q = rng.choice(qs)
+            p = 18 + q - k
+            out.append("%s %s %s %s" % (rng.choice(("div", "cdiv")), rng.choice(("vv", "*")), fD(rng.choice((1, -1)) * x, p), fD(rng.choice((1, -1)) * y, q)))
+    return out
